@@ -147,9 +147,12 @@ impl MonoMidiReceiver {
                     CC_ALL_CONTROLLERS_OFF => self.reset_controllers(),
                     CC_ALL_NOTES_OFF => {
                         self.held_down_notes.clear();
+                        // the gate only falls if it was high, an envelope waiting for this edge must get released
+                        if self.gate {
+                            self.falling_gate = true;
+                        }
                         self.gate = false;
                         self.rising_gate = false;
-                        self.falling_gate = false;
                     }
                     _ => (), // ignore all other MIDI CC messages
                 }
